@@ -26,31 +26,95 @@ def readU16s : Nat → Bytes → List Nat
   | 0, _ => []
   | k+1, s => beVal (s.take 2) :: readU16s k (s.drop 2)
 
-/-- `readUint16Array` -/
+/-- `int(binary.BigEndian.Uint16(remaining[:2]))`: the count in front of an array, under the conversions the source
+applies (regenerated from `readUint16Array` / `readParameterArray`; PostgreSQL reads these Int16 as unsigned) -/
+def countConv (chain : List String) (b : Bytes) : Int := goConvs chain (beVal b)
+
+/-- `int(binary.BigEndian.Uint32(remaining[:4]))`: the length in front of a parameter value -/
+def lenConv (b : Bytes) : Int := goConvs Generated.Wire.pgParamArrayLenConv (beVal b)
+
+/-- `readUint16Array`: a negative count passes the length check and panics in `make([]uint16, itemCount)` -/
 def readUint16Array (data : Bytes) : Out (List Nat × Bytes) :=
   if data.length < 2 then .err else
-  let count := beVal (data.take 2)
+  let count := countConv Generated.Wire.pgU16ArrayCountConv (data.take 2)
   let rest := data.drop 2
-  if rest.length < 2 * count then .err
-  else .ok (readU16s count rest, rest.drop (2 * count))
+  if (rest.length : Int) < 2 * count then .err
+  else if count < 0 then .panic
+  else .ok (readU16s count.toNat rest, rest.drop (2 * count.toNat))
 
 def readParamsArr : Nat → Bytes → Out (List (Option Bytes) × Bytes)
   | 0, s => .ok ([], s)
   | k+1, s =>
     if s.length < 4 then .err else
-    let plen := beVal (s.take 4)
+    let plen := lenConv (s.take 4)
     let s1 := s.drop 4
     if plen = 0xFFFFFFFF then do
       let (r, rest) ← readParamsArr k s1
       pure (none :: r, rest)
-    else if s1.length < plen then .err
+    else if (s1.length : Int) < plen then .err
+    else if plen < 0 then .panic            -- `remaining[:parameterLen]` with a negative length
     else do
-      let (r, rest) ← readParamsArr k (s1.drop plen)
-      pure (some (s1.take plen) :: r, rest)
+      let (r, rest) ← readParamsArr k (s1.drop plen.toNat)
+      pure (some (s1.take plen.toNat) :: r, rest)
 
-/-- `readParameterArray` -/
+/-- `s.length < k` without walking the whole list -/
+def lenLt : Bytes → Nat → Bool
+  | _, 0 => false
+  | [], _+1 => true
+  | _ :: r, k+1 => lenLt r k
+
+theorem lenLt_iff (s : Bytes) (k : Nat) : lenLt s k = true ↔ s.length < k := by
+  induction s generalizing k with
+  | nil => cases k <;> simp [lenLt]
+  | cons a r ih => cases k with
+    | zero => simp [lenLt]
+    | succ k => simp [lenLt, ih]
+
+theorem lenLt_eq (s : Bytes) (k : Nat) : lenLt s k = decide (s.length < k) := by
+  cases h : lenLt s k
+  · have : ¬ s.length < k := fun hc => by rw [(lenLt_iff s k).mpr hc] at h; cases h
+    simp [this]
+  · simp [(lenLt_iff s k).mp h]
+
+/-- compiled form of `readParamsArr` (length checks that do not walk the rest of the packet for every parameter – a
+Bind message may carry 65535 parameters); the theorems are about `readParamsArr`, the equality below is kernel-checked -/
+def readParamsArrFast : Nat → Bytes → Out (List (Option Bytes) × Bytes)
+  | 0, s => .ok ([], s)
+  | k+1, s =>
+    if lenLt s 4 then .err else
+    let plen := lenConv (s.take 4)
+    let s1 := s.drop 4
+    if plen = 0xFFFFFFFF then do
+      let (r, rest) ← readParamsArrFast k s1
+      pure (none :: r, rest)
+    else if 0 < plen ∧ lenLt s1 plen.toNat then .err
+    else if plen < 0 then .panic
+    else do
+      let (r, rest) ← readParamsArrFast k (s1.drop plen.toNat)
+      pure (some (s1.take plen.toNat) :: r, rest)
+
+@[csimp] theorem readParamsArr_eq_fast : @readParamsArr = @readParamsArrFast := by
+  funext k s
+  induction k generalizing s with
+  | zero => rfl
+  | succ k ih =>
+    unfold readParamsArr readParamsArrFast
+    simp only [lenLt_eq, decide_eq_true_eq, ih]
+    split
+    · rfl
+    · split
+      · rfl
+      · have hiff : ((s.drop 4).length : Int) < lenConv (s.take 4) ↔
+            (0 < lenConv (s.take 4) ∧ (s.drop 4).length < (lenConv (s.take 4)).toNat) := by omega
+        by_cases hc : ((s.drop 4).length : Int) < lenConv (s.take 4)
+        · rw [if_pos hc, if_pos (hiff.mp hc)]
+        · rw [if_neg hc, if_neg (fun h => hc (hiff.mpr h))]
+
+/-- `readParameterArray`: a negative count panics in `make([][]byte, parameterCount)` -/
 def readParameterArray (data : Bytes) : Out (List (Option Bytes) × Bytes) :=
-  if data.length < 2 then .err else readParamsArr (beVal (data.take 2)) (data.drop 2)
+  if data.length < 2 then .err else
+  let count := countConv Generated.Wire.pgParamArrayCountConv (data.take 2)
+  if count < 0 then .panic else readParamsArr count.toNat (data.drop 2)
 
 /-- `NewBindPacket` -/
 def newBindPacket (data : Bytes) : Out BindPacket := do
